@@ -60,9 +60,31 @@ func withPolicy(trigger json.RawMessage, policy string) json.RawMessage {
 }
 
 // Case: the A scenario; B is derived by twin(); Templates are evaluated after every sprint in both.
+//
+// SwitchAt, when set, makes the history one in which the policy is switched on by a resume: the session starts without
+// the policy and with the SAME contact in A and B (so that nothing URN-derived can legitimately have been stored
+// differently), and step SwitchAt carries an environment with the policy plus a refreshed contact whose URNs differ
+// between A and B. Only sprints after the switch are compared.
 type Case struct {
 	Scenario  scen.Case `json:"scenario"`
 	Templates []string  `json:"templates"`
+	SwitchAt  *int      `json:"switch_at,omitempty"`
+}
+
+// switchStep adds the environment of the trigger, with the policy on, and the contact of the trigger to a resume
+func switchStep(trigger json.RawMessage, st scen.Step) scen.Step {
+	var tr, res map[string]any
+	_ = json.Unmarshal(trigger, &tr)
+	_ = json.Unmarshal(st.Resume, &res)
+	env, _ := tr["environment"].(map[string]any)
+	env["redaction_policy"] = "urns"
+	res["environment"] = env
+	// the refreshed contact differs from the session's in A and in B alike (otherwise only B would log contact_refreshed)
+	contact, _ := tr["contact"].(map[string]any)
+	contact["created_on"] = "2016-06-06T06:06:06Z"
+	res["contact"] = contact
+	b, _ := json.Marshal(res)
+	return scen.Step{Resume: b, Restart: st.Restart}
 }
 
 // walk renders everything reachable from the context
@@ -189,14 +211,36 @@ func expressionOutputs(events []json.RawMessage) []string {
 
 func run(c Case) *harn.Failure {
 	a := c.Scenario
-	a.Trigger = withPolicy(a.Trigger, "urns")
 	b := a
-	b.Trigger = twin(a.Trigger)
 	b.Steps = make([]scen.Step, len(a.Steps))
-	for i, st := range a.Steps {
-		b.Steps[i] = scen.Step{Resume: twin(st.Resume), Restart: st.Restart}
+	firstCompared := 0
+	var differs bool
+	if c.SwitchAt == nil {
+		a.Trigger = withPolicy(a.Trigger, "urns")
+		b.Trigger = twin(a.Trigger)
+		for i, st := range a.Steps {
+			b.Steps[i] = scen.Step{Resume: twin(st.Resume), Restart: st.Restart}
+		}
+		differs = string(a.Trigger) != string(b.Trigger)
+	} else {
+		k := *c.SwitchAt
+		if k >= len(a.Steps) {
+			stats.Label("history:switch-not-reached")
+			return nil
+		}
+		a.Trigger = withPolicy(a.Trigger, "none")
+		b.Trigger = a.Trigger
+		for i, st := range a.Steps {
+			if i < k {
+				b.Steps[i] = st
+			} else {
+				b.Steps[i] = scen.Step{Resume: twin(st.Resume), Restart: st.Restart}
+			}
+		}
+		firstCompared = k + 1
+		differs = string(a.Steps[k].Resume) != string(b.Steps[k].Resume)
+		stats.Label(fmt.Sprintf("history:policy-switched-by-resume,reloaded=%v", a.Steps[k].Restart))
 	}
-	differs := string(a.Trigger) != string(b.Trigger)
 
 	exec := func(cs *scen.Case) ([]map[string]string, [][]string, []flows.Session, *harn.Failure) {
 		var snaps []map[string]string
@@ -249,6 +293,9 @@ func run(c Case) *harn.Failure {
 		if i >= len(sb) {
 			break
 		}
+		if i < firstCompared {
+			continue
+		}
 		if d, n := diff(sa[i], sb[i]); n > 0 {
 			return harn.Failf("context-independent-of-urns", "after sprint %d, %d context paths/templates differ between sessions that differ only in URN paths; first: %s", i, n, d)
 		}
@@ -257,7 +304,7 @@ func run(c Case) *harn.Failure {
 		}
 	}
 	// nameless contacts are shown by id
-	if s := sessA[0]; s != nil && s.Contact() != nil && s.Contact().Name() == "" {
+	if s := sessA[len(sessA)-1]; s != nil && s.Contact() != nil && s.Contact().Name() == "" && s.Environment().RedactionPolicy() == envs.RedactionPolicyURNs {
 		got := s.Contact().Format(s.MergedEnvironment())
 		if got != fmt.Sprint(int(s.Contact().ID())) {
 			return harn.Failf("nameless-contact-shown-by-id", "nameless contact formats as %q under the redaction policy, want its id %d", got, s.Contact().ID())
@@ -265,7 +312,11 @@ func run(c Case) *harn.Failure {
 		stats.Label("contact:nameless")
 	}
 	// control: without the policy the same walk does see the URNs
-	if differs {
+	if c.SwitchAt != nil {
+		if differs && len(sa) > firstCompared && sa[firstCompared]["error"] == "" {
+			stats.Nontrivial(stats.Hash64(string(a.Assets), string(a.Trigger), fmt.Sprint(len(a.Steps), *c.SwitchAt), strings.Join(c.Templates, "|")))
+		}
+	} else if differs {
 		ca, cb := a, b
 		ca.Trigger, cb.Trigger = withPolicy(a.Trigger, "none"), withPolicy(b.Trigger, "none")
 		ca.Steps, cb.Steps = nil, nil
@@ -316,7 +367,14 @@ var opts = scen.GenOpts{
 func TestRedactedURNsInvisible(t *testing.T) {
 	rapid.Check(t, func(rt *rapid.T) {
 		cs, w := scen.DrawCase(rt, opts)
-		cs.Trigger = withPolicy(cs.Trigger, "urns")
+		var switchAt *int
+		if rapid.IntRange(0, 3).Draw(rt, "switching") == 0 {
+			k := rapid.IntRange(0, 1).Draw(rt, "switchAt")
+			switchAt = &k
+			cs.Trigger = withPolicy(cs.Trigger, "none")
+		} else {
+			cs.Trigger = withPolicy(cs.Trigger, "urns")
+		}
 		// draw the resumes by running scenario A
 		r, _, err := scen.Start(cs)
 		if err == nil {
@@ -325,6 +383,9 @@ func TestRedactedURNsInvisible(t *testing.T) {
 				if !ok {
 					break
 				}
+				if switchAt != nil && i == *switchAt {
+					st = switchStep(cs.Trigger, st)
+				}
 				cs.Steps = append(cs.Steps, st)
 				if _, err := r.Resume(st); err != nil {
 					break
@@ -332,7 +393,7 @@ func TestRedactedURNsInvisible(t *testing.T) {
 			}
 		}
 		n := rapid.IntRange(3, 8).Draw(rt, "ntemplates")
-		c := Case{Scenario: *cs}
+		c := Case{Scenario: *cs, SwitchAt: switchAt}
 		for i := 0; i < n; i++ {
 			c.Templates = append(c.Templates, rapid.SampledFrom(urnTemplates).Draw(rt, "template"))
 		}
